@@ -1,5 +1,7 @@
 package main
 
+import "strings"
+
 // HarnessSpec says how one harness is run for a property.
 type HarnessSpec struct {
 	Name       string
@@ -340,4 +342,35 @@ func init() {
 
 	ext("C06", "AsHTTPBodyReader / AsHTTPBodyWriter raw passthrough: uploads of 0..5 symbolic bytes over every read partition, downloads of 0..3 bytes, symbolic content type",
 		HarnessSpec{Name: "VerifH_httpbody_passthrough", Covers: []string{"reader", "writer"}})
+
+	wsAssume := []string{"gobwas/ws upgrade, frame reader / writer, masking and UTF-8 validation interpreted from source (strToBytes / btsToString conversions and sha1.Sum of the concrete nonce modelled)", "in-memory net.Conn with a hijackable ResponseWriter", "protojson: natively the real codec runs on the fake messages; under the engine its fragment for objects of escape-free strings and nested objects is modelled (model_protojson.go), compared on every run by witness replay"}
+	dropOutside := func(id string, needle string) {
+		var keep []string
+		for _, o := range props[id].Outside {
+			if !strings.Contains(o, needle) {
+				keep = append(keep, o)
+			}
+		}
+		props[id].Outside = keep
+	}
+	dropOutside("C05", "WebSocket close frame")
+	dropOutside("C06", "WebSocket")
+	dropOutside("C08", "WebSocket")
+	dropOutside("C18", "WebSocket stats")
+	props["C06"].Outside = append(props["C06"].Outside, "gzip, real HTTP/2 flow control")
+	ext("C05", "WebSocket: a failing / succeeding handler behind a real ws.UpgradeHTTP; status codes 1..17, messages of 0..3, 121..124 and 130 bytes (close-reason capacity is 123)",
+		HarnessSpec{Name: "VerifH_ws_close", Covers: []string{"normal-closure", "message-fits", "message-truncated"}})
+	ext("C18", "WebSocket: End stats event of failing / succeeding handlers",
+		HarnessSpec{Name: "VerifH_ws_close", Covers: []string{"stats"}})
+	ext("C06", "WebSocket: k<=2 masked JSON text frames echoed by the handler, then the client's close frame",
+		HarnessSpec{Name: "VerifH_ws_stream", Covers: []string{"echoed", "two-messages"}})
+	ext("C08", "WebSocket: a text message one byte above the receive limit among messages within it",
+		HarnessSpec{Name: "VerifH_ws_stream", Covers: []string{"oversize", "echoed"}})
+	ext("C03", "real JSON codec (CodecJSON / protojson) through ServeHTTP: path variable + query parameter + JSON body (body: * and body: field) with symbolic escape-free strings of 1..2 bytes",
+		HarnessSpec{Name: "VerifH_serveHTTP_json", Covers: []string{"body-star", "body-field"}})
+	ext("C04", "real JSON codec: the reply decoded from the response body equals the handler's reply",
+		HarnessSpec{Name: "VerifH_serveHTTP_json", Covers: []string{"body-star"}})
+	for _, id := range []string{"C05", "C18", "C06", "C08", "C03", "C04"} {
+		props[id].Assume = append(props[id].Assume, wsAssume...)
+	}
 }
